@@ -34,11 +34,22 @@ impl Prop for C18 {
     fn pre_steps(&self) -> Vec<&'static str> { vec!["autotraits"] }
     fn builds(&self, _tier: Tier) -> Vec<&'static str> { vec!["fast"] }
     fn strategy(&self, tier: Tier, _b: &str) -> BoxedStrategy<ThreadCase> {
+        let max_bits: usize = if tier == Tier::Quick { 400_000 } else { 3_000_000 };
         // immutable query structures: trees, RS vectors, DArray, BitVector, QVector
         let base = any_case(tier, (6, 3, 2), &TreeKind::ALL).prop_filter_map("BitVectorMut is not a query structure", |c| match &c {
             AnyCase::Bits(b) if b.kind == crate::bits::BitsKind::Bvm => None,
             _ => Some(c),
         });
+        // structures whose queries scan long stretches (hidden per-query state would show here):
+        // DArray / RSNarrow / RSWide over runs of several thousand equal bits and over very sparse bits
+        let long_runs = (proptest::sample::select(vec![crate::bits::BitsKind::Da1, crate::bits::BitsKind::Da0, crate::bits::BitsKind::Narrow, crate::bits::BitsKind::Wide]),
+            prop_oneof![
+                2 => (20_000usize..=max_bits, 12u8..=15, 12u8..=15, any::<u64>()).prop_map(|(n, zero_lg, one_lg, seed)| crate::bitgen::BitContent::Runs { n, zero_lg, one_lg, seed }),
+                1 => (140_000usize..=max_bits.max(140_001), prop_oneof![Just(16u32), Just(64), Just(400)], any::<u64>()).prop_map(|(n, num, seed)| crate::bitgen::BitContent::Density { n, num, seed }),
+                1 => (140_000usize..=max_bits.max(140_001), prop_oneof![Just(65520u32), Just(65472), Just(65136)], any::<u64>()).prop_map(|(n, num, seed)| crate::bitgen::BitContent::Density { n, num, seed }),
+            ], any::<u64>())
+            .prop_map(|(kind, content, plan_seed)| AnyCase::Bits(crate::props::bitsprops::BitsCase { kind, bvhow: crate::bits::BvHow::Bools, wrap: crate::bits::WrapHow::New, content, plan_seed }));
+        let base = prop_oneof![5 => base, 1 => long_runs];
         (base, prop_oneof![2 => 2u8..=4, 3 => 4u8..=8, 2 => 8u8..=16], 1u8..=3, prop_oneof![Just(8u8), Just(20), Just(40)])
             .prop_map(|(base, threads, rounds, budget)| ThreadCase { base, threads, rounds, budget })
             .boxed()
